@@ -66,6 +66,7 @@ func main() {
 	Register("flags", runFlags)
 	Register("preview", runPreview)
 	Register("lr", runLR)
+	Register("cmd", runCmd)
 	Main()
 }
 
@@ -140,7 +141,7 @@ func (p *pool) loop() {
 			w = p.spawn()
 		}
 		res, alive := p.exchange(w, j.line)
-		if !alive {
+		if !alive || strings.HasPrefix(res.detail, "Parse did not return") {
 			w.kill()
 			w = nil
 		}
@@ -182,6 +183,16 @@ func (p *pool) exchange(w *proc, line string) (result, bool) {
 // a dead worker: out-of-memory under the address-space limit is outside the claim; anything else
 // (stack overflow, concurrent map access, nil dereference in a goroutine …) is a fatal error
 func classifyDeath(stderr string) result {
+	// the worker marks the parse stage: dying inside Parse (even of memory exhaustion) is a parser failure,
+	// the driver is proved to terminate within a linear number of rounds
+	if i := strings.LastIndex(stderr, "c08-stage "); i >= 0 && strings.HasPrefix(stderr[i:], "c08-stage parse\n") {
+		rest := stderr[i+len("c08-stage parse\n"):]
+		if len(rest) > 1200 {
+			rest = rest[:600] + "\n...\n" + rest[len(rest)-600:]
+		}
+		return result{"FATAL", "the worker died inside gojq.Parse: " + rest}
+	}
+	stderr = strings.ReplaceAll(strings.ReplaceAll(stderr, "c08-stage parsed\n", ""), "c08-stage parse\n", "")
 	for _, m := range []string{"out of memory", "cannot allocate memory", "failed to reserve", "runtime: cannot map pages", "failed to allocate"} {
 		if strings.Contains(stderr, m) {
 			return result{"oom", ""}
